@@ -14,6 +14,11 @@ CHECKS = {
    note="Trusted: Coq kernel incl. vm_compute, extraction, OCaml driver, Go harness (harness/c12.go, gen_regimes.go), python comparison and P. Known finding C12-start-date-exclusive (findings/C12.json, fix in fixes/C12-1-start-date-inclusive.diff). Modelled not verified: regime/addon normalisers that could rewrite a combo before the lookup (the invoice stream would show a difference).",
    technique="Rocq theorems over a Gallina model and over translated tables + exhaustive differential correspondence (extracted OCaml vs Go) + independent table oracle",
    design="7 (C12)"),
+ "C18": dict(
+   text="Rocq theorems (rocq/Props/C18.v, 12 statements, axiom-free) over the Gallina transcription of the GENERIC reference rules (Defs/RefCheck.v: Combo.ValidateWithContext with InCategories / InCategoryRates / Key.Has on `+` parts, Extensions.Validate with registered key, listed codes and pattern, supportedTags + TagsIn, AddonRegistered, currency and country code membership; the rule set is an argument, so the code as shipped and the code after the proposed repairs are both models) applied to the reference view of a document (regime, addons, schema, tags, every combo, every extension entry, every currency and country code): refcheck_sound - for ALL definition tables and documents, a view the repaired rules accept only makes references that resolve (regime and addons exist, category and rate key belong to the regime that applies, extension key defined by a regime, addon or catalogue and value among its codes / matching its pattern, tag offered by the regime or an addon in use for the document type, currencies and countries known); refcheck_sound_shipped_refuted and combo_country_shipped_refuted - the rules as shipped are not sound (witness: `$regime: QQ` with rate-less combos; combo country QQ); resolves_published_iff_in_code / validated_resolves_in_published - corollaries of C19 (published_equals_in_code, published_only_defined_partial): resolution in the published tables coincides with resolution in the in-code tables; per-kind theorems; all_patterns_supported. PARTIAL: regime- and addon-specific validators, and whether every place of a document is reached by a validator, are exercised by the sweep only. Tie/sweep: translator regenerates Gen/*.v (incl. Gen/Countries.v) on every run; every valid example (162 files) x every reference position x {other defined values (published or in code; one-sided values always), undefined values} (quick ~19k, thorough ~400k mutated documents) through gobl.Parse -> Envelop -> Validate; the reference view of the calculated document (reflection over the Go structures) goes to the extracted rules (in-code and published tables) and to an independent python oracle over the published JSON; P: Go accepted => every reference resolves in the published definitions; Go accepted => shipped-rule model accepts; extracted rules over published tables = python oracle on every view; Gallina pattern matcher = regexp.MatchString on 4k probes of every declared pattern.",
+   note="Trusted: Coq kernel incl. vm_compute, extraction, OCaml driver, harness/c18.go (reflection walk producing the reference view; replaced values are looked for in the view, else counted as normalised away), python mutation generator and oracle. regexp.MatchString is an argument `mp` of every theorem; the runner uses the Gallina matcher simple_match (covers every declared pattern: all_patterns_supported; compared with Go). `defined by the regime, an addon or a catalogue` is read as the library's global extension registry (any regime, any addon); accepted keys foreign to the document's regime/addons are counted, not judged. Category codes and rate keys inside tax TOTALS are not reference positions. Panics on DEFINED replacement values (party with a regime that has no normaliser; es-facturae on an invoice without `tax`) are listed in the evidence, not judged (C14's subject). Known findings (findings/C18.json, witnesses corpus/C18/, patches fixes/C18-1..5): C18-regime-not-checked, C18-combo-country-not-validated, C18-order-tax-not-validated, C18-payment-line-document-tax-not-validated, C18-tags-not-validated-outside-invoices.",
+   technique="Rocq soundness theorem of a transcribed rule checker + corollary of translated-table equality + exhaustive single-replacement sweep (Go vs extracted checker vs independent python resolution in the published JSON)",
+   design="7 (C18)"),
  "C19": dict(
    text="Rocq theorems over generated data (rocq/Props/C19.v, axiom-free, vm_compute of boolean checkers + proved soundness lemmas): every regime, addon and catalogue the code registers is published under the generator's file name with the same structural content (published_equals_in_code); no other file is published except the recorded stale data/regimes/gr.json (published_only_defined_partial); every regime and addon names an existing currency and only refers to defined extensions, extension codes, rate-value tags, addons and invoice types, with unique regime, addon, catalogue, currency, extension, category, rate and regime tag keys (all_definitions_coherent); scenario tags of regimes and tag keys of addons are defined/unique except the two recorded definitions (tags_defined_and_unique_partial). Tie: translator writes Gen/*.v from the live registries and Gen/Published.v from data/*.json through one rendering routine; the repository's own generators are run in a scratch copy and all 109 files under data/ are byte-compared; RegimeDef.Validate / AddonDef.Validate / time.LoadLocation on every definition; every regime and schema file requested from `gobl serve` /bulk; independent python JSON comparison and reference search must name the same definitions as the extracted checkers.",
    note="Trusted: Coq kernel incl. vm_compute, extraction, OCaml driver, the structural projection of harness/gen_regimes.go (texts are compared by bytes only), Go harness, python. Known findings C19-stale-gr-json, C19-in-scenario-tags-undefined, C19-it-sdi-duplicate-tag (findings/C19.json, fixes/C19-*.diff); the `_partial` theorems name their recorded exceptions in Defs/Coherence.v. Correction stamps are only checked to be non-empty (no stamp registry exists in the data).",
